@@ -28,13 +28,13 @@ Recipe(v, var) ==
 \* ---- a universe rich in nested unordered compounds and symmetric statements
 L0 == {W("a"), W("b"), W("c"), IV("a"), PH}
 K3 == {"SetExtension", "SetIntension", "Conjunction"}
-L1 == {[k |-> kd, s |-> S] : kd \in K3, S \in SubsetsUpTo(L0, 3)}
+L1 == {[k |-> kd, s |-> S] : kd \in SetKinds, S \in SubsetsUpTo(L0, 3)}       \* every one of the seven unordered constructors
       \cup {[k |-> kd, p |-> pr] : kd \in SymStmtKinds, pr \in PairsUnordered({W("a"), W("b"), IV("a")})}
       \cup {[k |-> "Product", q |-> q] : q \in SeqsUpTo({W("a"), W("b")}, 2)}
       \cup {[k |-> "ImageExtension", i |-> i, q |-> <<W("a"), W("b")>>] : i \in 0..2}
       \cup {[k |-> kd, a |-> a, b |-> b] : kd \in {"Inheritance", "DifferenceExtension"}, a \in {W("a"), W("b")}, b \in {W("a"), W("b")}}
 M1s == Sample(L1, IF TIER = "thorough" THEN 2 ELSE 5, SEED) \cup {W("a")}
-L2 == {[k |-> kd, s |-> S] : kd \in {"SetExtension", "Disjunction"}, S \in SubsetsUpTo(M1s, 2)}
+L2 == {[k |-> kd, s |-> S] : kd \in {"SetExtension", "Disjunction", "ConjunctionParallel"}, S \in SubsetsUpTo(M1s, 2)}
       \cup {[k |-> kd, p |-> pr] : kd \in {"Similarity", "EquivalenceConcurrent"}, pr \in PairsUnordered(M1s)}
       \cup {[k |-> "Implication", a |-> a, b |-> W("c")] : a \in M1s} \cup {[k |-> "ConjunctionSequential", q |-> <<a, W("c")>>] : a \in M1s}
 L3 == {[k |-> "IntersectionExtension", s |-> {v, W("z")}] : v \in Sample(L2, 11, SEED)}
@@ -60,8 +60,8 @@ Next == \/ /\ mode = "design" /\ mode' = "pair" /\ y' \in BTerms(DEPTH) /\ UNCHA
         \/ /\ mode = "design" /\ mode' = "pair2" /\ x' \in {b \in BTerms(DEPTH) : Canon(b) = Canon(x) \/ b.k = x.k} /\ y' = x
         \/ /\ mode = "seed" /\ mode' = "value" /\ x' \in Part(EqU, x, SEEDS) /\ UNCHANGED y
         \/ /\ mode = "value" /\ mode' = "recipes"
-           /\ \E va \in 1..4 : \E vb \in 1..4 : \E w \in {x} \cup Near(x) :
-                x' = Recipe(x, va) /\ y' = Recipe(w, vb)
+           /\ \E vv \in (IF TIER = "thorough" THEN (1..4) \X (1..4) ELSE {<<1, 2>>, <<2, 3>>, <<3, 4>>, <<4, 1>>, <<3, 3>>}) :
+              \E w \in {x} \cup Near(x) : x' = Recipe(x, vv[1]) /\ y' = Recipe(w, vv[2])
 
 \* ---- (1) for all hidden orders
 EqIsSemantic == mode \in {"pair", "pair2"} => (EqI(x, y) <=> (Canon(x) = Canon(y)))
